@@ -593,8 +593,11 @@ func (p *parser) scanEscape(quote rune) {
 func (p *parser) scanString(offset int) (string, error) {
 	// " ' /
 	quote := rune(p.str[offset])
+	regExp := quote == '/'
 
-	for p.chr != quote {
+	// quote is -1 inside a character class of a regular expression: the end of the input
+	// (p.chr == -1) does not close it.
+	for p.chr < 0 || p.chr != quote {
 		chr := p.chr
 		if chr == '\n' || chr == '\r' || chr == '\u2028' || chr == '\u2029' || chr < 0 {
 			goto newline
@@ -627,7 +630,7 @@ func (p *parser) scanString(offset int) (string, error) {
 newline:
 	p.scanNewline()
 	err := "String not terminated"
-	if quote == '/' {
+	if regExp {
 		err = "Invalid regular expression: missing /"
 		p.error(p.idxOf(offset), err)
 	}
